@@ -482,7 +482,9 @@ Definition step_told (s : sys) (T : N) (t : told_res) : res :=
   match t with
   | TOk => chk (negb (async_kept c) || pw_closed c) else R7_ok_without_commit;
            chk (negb (cn c FPcOk =? 0) || negb (cn c F1pcTs =? 0) ||
-                (async_kept c && fb c FHasm && subset (c_lm c) (c_pwok c) && pw_closed c)) else R7_ok_without_commit;
+                (async_kept c && fb c FHasm && subset (c_lm c) (c_pwok c) && pw_closed c) ||
+                (negb (fb c FHasm) && (cn c FPcSent =? 0) && (cn c FPwSent <=? cn c FPwRep) && negb (fb c FPwErr)))
+             else R7_ok_without_commit;   (* last: nothing is locked (read-only, or CheckNotExists keys only): no commit point *)
            Ok (setc s T (setn c FTold 1))
   | TErr => chk (neg_ok c && (negb (cp_active c) || err_ok c) && (cn c F1pcTs =? 0)) else R7_err_with_pending;
             Ok (setc s T (setn (setn c FTold 3) FDead 1))
@@ -521,7 +523,7 @@ Definition stepr (s : sys) (e : event) : res :=
       let c := getc s T in
       chk (negb (crashed s r)) else X_crashed;
       chk (cn c FTold =? 0) else R7_send_after_told;
-      Ok (setc (add_sent s e) T (if fb c FPlAny then c else setn (setn c FPlAny 1) FPlPrim p))
+      Ok (setc (add_sent s e) T (setn (setn c FPlAny 1) FPlPrim p))   (* the primary may be re-selected while nothing is locked: the latest one counts *)
   | EPlDeliver r T f ks x =>
       chk (sent_by s (fun e => match e with EPlSend r' s' _ f' ks' => (r' =? r) && (s' =? T) && (f' =? f) && leqb ks' ks | _ => false end)) else N_no_send;
       Ok (add_dlv s (EPlReply r T f ks x))
